@@ -365,6 +365,7 @@ def read_import(file, *targets):
   sys.path.append('.')
   results = []
   globals = {}
+  cached = file in sys.modules
   try:
     if _dir: os.chdir(_dir)
     if len(targets):
@@ -393,6 +394,7 @@ def read_import(file, *targets):
   finally:
     if _dir: os.chdir(curdir)
     sys.path.pop()
+    if not cached: sys.modules.pop(file, None) #NOTE: file may be rewritten
   if not len(results): return None
   return results[-1] if (len(results) == 1) else results
 
